@@ -38,14 +38,18 @@ ACTIONS = [
 ]
 
 # stage = (name, constants, replay limit or None, expect RejectTopology)
+ANY = dict(Shape="any", ShapeCats=set())
 SCOPES = {
     "quick": [
-        ("n2to5", dict(MinN=2, MaxN=5, CandN=4, ShardK=1, ShardI=0), None, True),
+        ("n2to5", dict(MinN=2, MaxN=5, CandN=4, ShardK=1, ShardI=0, **ANY), None, True),
+        # targeted: no grid meter, nodes 2 and 3 meters, >= 2 consumer meters with device chains below (first at n = 8)
+        ("n8twomixed", dict(MinN=8, MaxN=8, CandN=0, ShardK=1, ShardI=0, Shape="twomixed", ShapeCats={"PVINV", "BATINV", "METER"}), 6000, False),
     ],
     "thorough": [
-        ("n2to6", dict(MinN=2, MaxN=6, CandN=5, ShardK=1, ShardI=0), None, True),
+        ("n2to6", dict(MinN=2, MaxN=6, CandN=5, ShardK=1, ShardI=0, **ANY), None, True),
         # one seeded shard (1/12 of the category vectors) of n = 7, sub-sampled
-        ("n7shard", dict(MinN=7, MaxN=7, CandN=0, ShardK=12, ShardI=SEED % 12), 30000, False),
+        ("n7shard", dict(MinN=7, MaxN=7, CandN=0, ShardK=12, ShardI=SEED % 12, **ANY), 30000, False),
+        ("n8twomixed", dict(MinN=8, MaxN=8, CandN=0, ShardK=1, ShardI=0, Shape="twomixed", ShapeCats={"PVINV", "BATINV", "EV", "CHP", "METER"}), 40000, False),
     ],
 }
 
@@ -249,7 +253,7 @@ def _stage(rep: Report, prop: str, name: str, consts: dict, limit, expect_reject
     shards = replay_parallel(_worker, cases, d)
     fails, done, st = validate_shards(
         "GraphFormulasTrace", shards, d,
-        constants=dict(MinN=2, MaxN=9, CandN=99, ShardK=1, ShardI=0), timeout=timeout,
+        constants=dict(MinN=2, MaxN=9, CandN=99, ShardK=1, ShardI=0, **ANY), timeout=timeout,
     )
     rep.validated += done
     # what the validated records exercised (written by TLC with every consumed trace)
@@ -267,13 +271,13 @@ def _stage(rep: Report, prop: str, name: str, consts: dict, limit, expect_reject
              model_antecedents=mc_flags, exercised_by_real_records=ex)
     )
     # vacuity: antecedents that depend on the graph only (the code under test cannot empty them)
-    need = ["graph", "with_grid_meter", "without_grid_meter", "chp_without_dedicated_meter", "chp_with_dedicated_meter",
-            "load", "nested", "dedicated_meter"]
-    if consts["MinN"] <= 3:
-        # these shapes need the small graphs, which a sampled shard of large graphs may not contain
-        need += ["grid_meter_over_one_device_type", "grid_meter_as_chp_meter"]
-    if consts["MaxN"] >= 5:
-        need.append("dev")
+    if consts["Shape"] == "twomixed":
+        need = ["graph", "dev", "load", "no_grid_meter_and_two_mixed_meters_with_device_chains"]
+    else:
+        need = ["graph", "with_grid_meter", "without_grid_meter", "chp_without_dedicated_meter", "chp_with_dedicated_meter",
+                "load", "nested", "dedicated_meter", "grid_meter_over_one_device_type", "grid_meter_as_chp_meter"]
+        if consts["MaxN"] >= 5:
+            need.append("dev")
     for k in need:
         if not ex.get(k):
             raise RuntimeError(f"vacuity: no validated record exercised '{k}' in {name} ({ex})")
